@@ -19,6 +19,7 @@ def demo_cmds(demo, seedname):
     i = 0
     while i < len(txt):
         l = txt[i].strip().lstrip("*").lstrip("/").strip()
+        l = re.sub(r"^(build|run|compile)\s*:\s*", "", l, flags=re.I)
         if build is None and re.match(r"^(cc|gcc|g\+\+) ", l):
             cmd = l
             while cmd.endswith("\\") and i + 1 < len(txt):
